@@ -20,6 +20,10 @@ from . import tlc, tlaval
 
 ROOT = os.path.dirname(os.path.dirname(os.path.abspath(__file__)))
 REPO = os.environ.get("VERIF_REPO", "/repo")
+# the implementation under test is always imported from REPO (parent process and workers alike), never from an
+# installed copy
+if REPO not in sys.path:
+    sys.path.insert(0, REPO)
 NCPU = int(os.environ.get("VERIF_CPUS", "16"))
 
 
